@@ -13,6 +13,8 @@ def fill(res, infos, stats, sources, rule, extra=None):
         "disagreements_checked": sum(1 for i in infos if i["status"] in ("known", "violation")),
         "outcomes": dict(stats),
         "proved_for_all_inputs": stats.get("proved_for_all_inputs", 0),
+        "proved_cells": stats.get("proved_cells", 0), "cells": stats.get("cells", 0),
+        "proved_cells_note": "memory cells whose two gates pass Facto.gatedCellIs on the cut circuit (theorem Facto.gated_cell_end_to_end: one-tick law = WriteRule.next in every state settled around the cells)",
         "proved_note": "programs whose every bound Core node passed the kernel-verified matcher (Facto.scalar_end_to_end): for these the agreement holds for ALL input values, not only the searched ones",
         "samples": [i["source"] for i in infos[:3]],
     })
